@@ -67,6 +67,10 @@ type c34Case struct {
 	// fails (a peer that does not answer): the Join that made it stays inside
 	// memberlist for that time
 	HoldMs int `json:"hold_ms,omitempty"`
+	// SlowShutdownMs > 0: the node's transport takes this long to shut down
+	// (a real one waits for its listeners), so a Shutdown call stays inside
+	// memberlist for that time
+	SlowShutdownMs int `json:"slow_shutdown_ms,omitempty"`
 }
 
 func genC34(t *rapid.T) c34Case {
@@ -128,7 +132,10 @@ func genC34(t *rapid.T) c34Case {
 	if rapid.IntRange(0, 5).Draw(t, "join-hangs") == 0 {
 		c.HoldMs = rapid.SampledFrom([]int{60, 90}).Draw(t, "jh.hold")
 		c.Calls[0] = c34Call{Kind: 0}
-		c.Calls[1] = c34Call{Kind: rapid.SampledFrom([]int{1, 1, 1, 2}).Draw(t, "jh.second"), Trigger: 6, After: 0, DelayUs: 2000}
+		c.Calls[1] = c34Call{Kind: rapid.SampledFrom([]int{1, 1, 2, 2}).Draw(t, "jh.second"), Trigger: 6, After: 0, DelayUs: 2000}
+		if c.Calls[1].Kind == 2 {
+			c.SlowShutdownMs = rapid.SampledFrom([]int{0, 40, 40}).Draw(t, "jh.slowshutdown")
+		}
 		late := c34Call{Kind: 0, Trigger: 6, After: 1, DelayUs: 20000, IgnoreOld: rapid.Bool().Draw(t, "jh.ignore")}
 		if len(c.Calls) > 2 {
 			c.Calls[2] = late
@@ -163,6 +170,7 @@ func bodyC34(c c34Case, x *vkit.Ctx) { runC34(c, x, 0) }
 func runC34(c c34Case, x *vkit.Ctx, attempt int) {
 	nw := simnet.New(1)
 	nw.Deliver = c.Peer == 2
+	nw.ShutdownDelay = time.Duration(min(max(c.SlowShutdownMs, 0), 100)) * time.Millisecond
 	var heldDials atomic.Int32
 	holdArmed := atomic.Bool{}
 	if c.HoldMs > 0 {
